@@ -393,6 +393,29 @@ func (w *slWorker) build() {
 	if w.cfg.Variant == "throttle" {
 		ptx("delegate(v3,+10)", func(*slNode) sdk.Msg { return env.MsgDelegate(p.Delegator, p.Vals[3], 10*unit) })
 		ptx("undelegate(v0,-3)", func(*slNode) sdk.Msg { return env.MsgUndelegate(p.Vals[0].Oper, p.Vals[0], 3*unit) })
+		// governance changes the throttle parameters: the meter itself moves only in begin-block
+		// (replenishment) and when a report is handled, never because a parameter changed
+		w.tab.Add("gov:params(replenish-fraction)", func(n engine.Node) (engine.Node, []V) {
+			x := n.(*slNode)
+			params := p.K.GetParams(x.P.Ctx)
+			if params.SlashMeterReplenishFraction == "0.3" {
+				params.SlashMeterReplenishFraction = "0.05"
+			} else {
+				params.SlashMeterReplenishFraction = "0.3"
+			}
+			c := x.clone()
+			c.touchP()
+			pre := p.K.GetSlashMeter(x.P.Ctx)
+			if r := c.P.Deliver(&providertypes.MsgUpdateParams{Authority: p.GovAddr, Params: params}); r.Err != nil {
+				debugOnce("slash:gov-params", r.Err)
+				return nil, nil
+			}
+			w.stats.Count("throttle-params-changed")
+			if post := p.K.GetSlashMeter(c.P.Ctx); !post.Equal(pre) {
+				return c, []V{vf("C09", "meter-moved-by-parameter-change", "a governance parameter update moved the slash meter %s -> %s (it is replenished only in begin-block, once per period)", pre, post)}
+			}
+			return c, nil
+		})
 	}
 }
 
